@@ -179,6 +179,24 @@ def modeb_configs(tier, algos, tag="modeb", parts=("B", "K3", "RB")):
                     c["prefix"] = pre
                     c["cost"] = P
                     out.append(c)
+    # integer-typed rewards mixed with floats (clipping to [0,1] with min/max of Python ints)
+    for algo in algos:
+        for (P, params) in ([(30, {})] if algo in ("T_HOO", "HCT", "VHCT") else (MODEB.get(algo, [])[1:2] or MODEB.get(algo, [])[:1])):
+            k = 1
+            c = _cfg(algo, "B", 1, P + k, dict(params), "-P%d+%d-clipint" % (P, k))
+            c["name"] = tag + "-" + c["name"]
+            c["prefix"] = {"P": P, "k": k, "seed": 5, "peak": 0.3, "noise": 0.9, "pattern": "clip_int"}
+            c["cost"] = P
+            out.append(c)
+            # the same run on a box given with integer bounds, on a 3-ary partition and in two dimensions
+            for part, d in (("K3", 1), ("B", 2)):
+                if algo == "VROOM" and part == "K3":
+                    continue
+                c = _cfg(algo, part, d, P + k, dict(params), "-P%d+%d-intbox" % (P, k))
+                c["name"] = tag + "-" + c["name"]
+                c["prefix"] = {"P": P, "k": k, "seed": 6, "peak": 0.55, "noise": 0.25, "intbox": True}
+                c["cost"] = P * d
+                out.append(c)
     # rising rewards: the search descends a single path, cells 17-20 levels deep after 36-40 rounds (DOO's default diameter
     # is then ~1e-10 of the root's, SOO's sweeps are 20 levels long)
     for algo, P, k in (("DOO", 32, 4), ("DOO", 37, 2), ("SOO", 40, 2)):
